@@ -76,6 +76,11 @@ def random_case(rng, max_states=5, max_syms=3, kinds=("enfa", "nfa", "dfa"), vcs
             else:
                 edits.append(["add_f", rng.randrange(max(n, 1))])
         case["edits"] = edits
+    r = rng.random()
+    if r < 0.15:
+        case["form"] = "ctor"          # states / symbols / start / finals given to the constructor
+    elif r < 0.3:
+        case["form"] = "bulk"          # add_transitions(list)
     return case
 
 
@@ -192,7 +197,26 @@ def build(case):
         ops.append(("y", a))
     if "shuffle" in case:
         random.Random(case["shuffle"]).shuffle(ops)
+    form = case.get("form")
+    if form == "ctor":
+        starts = [sval(case, x[1]) for x in ops if x[0] == "s"]
+        finals = {sval(case, x[1]) for x in ops if x[0] == "f"}
+        syms = {aval(case, x[2]) for x in ops if x[0] == "t" and x[2] != EPSID} | \
+               {aval(case, x[1]) for x in ops if x[0] == "y"}
+        declared = {sval(case, i) for i in range(case["n"]) if i % 2 == 0}     # some states only, the rest is implied
+        if case["kind"] == "dfa":
+            fa = cls(states=declared, input_symbols=syms, start_state=starts[0] if starts else None,
+                     final_states=finals)
+            for x in starts[1:]:
+                fa.add_start_state(x)
+        else:
+            fa = cls(states=declared, input_symbols=syms, start_state=set(starts), final_states=finals)
+        fa.add_transitions([(sval(case, x[1]), aval(case, x[2]), sval(case, x[3])) for x in ops if x[0] == "t"])
+        return fa
     fa = cls()
+    if form == "bulk":
+        fa.add_transitions([(sval(case, x[1]), aval(case, x[2]), sval(case, x[3])) for x in ops if x[0] == "t"])
+        ops = [x for x in ops if x[0] != "t"]
     for op in ops:
         if op[0] == "t":
             fa.add_transition(sval(case, op[1]), aval(case, op[2]), sval(case, op[3]))
